@@ -401,13 +401,20 @@ def rule_r5(ck, prog, rule='C14.R5'):
 def rule_r6(ck, prog, rule='C14.R6'):
     fs = [f for f in prog.functions('StringUtil::Trim') if len(f.params) == 3]
     f = fs[0]
-    loops = [n for n in f.nodes if n['k'] == 'while']
+    loops = [n for n in f.nodes if n['k'] in ('while', 'for', 'do') and n.get('cnd') is not None and n['cnd'] >= 0]
     want = CTYPE['isspace']
-    for lp, side in zip(loops, ('left', 'right')):
-        # subject: str[<index param>]
-        def is_subj(i):
-            m = f.nodes[i]
-            return m['k'] == 'call' and m.get('op') == '[]' and m.get('obj') is not None and strip_casts(f, m['obj']).get('id') == f.params[0]['id']
+    sides = {}
+
+    def is_subj(i):
+        m = f.nodes[i]
+        return m['k'] == 'call' and m.get('op') == '[]' and m.get('obj') is not None and strip_casts(f, m['obj']).get('id') == f.params[0]['id']
+    for lp in loops:
+        # which end the loop trims: the parameter its subject str[<index>] is indexed with
+        idx_ids = {strip_casts(f, f.nodes[i]['args'][0]).get('id') for i in f.subtree(lp['cnd']) if is_subj(i) and f.nodes[i].get('args')}
+        side = 'left' if idx_ids == {f.params[1]['id']} else ('right' if idx_ids == {f.params[2]['id']} else None)
+        if side is None or side in sides:
+            continue
+        sides[side] = lp
         # the predicate part: conjunct that mentions the subject
         cnd = f.nodes[lp['cnd']]
         parts = [cnd['rhs'], cnd['lhs']] if cnd['k'] == 'binop' and cnd['op'] == '&&' else [lp['cnd']]
@@ -419,8 +426,34 @@ def rule_r6(ck, prog, rule='C14.R6'):
         ok = bs == want
         ck.verdict(ok, rule, f, 'trim-class:%s' % side, lp, 'trims exactly the whitespace class %s' % describe(bs) if ok else
                    'the %s trimming predicate accepts %s, whitespace is %s: bytes that make a member invalid are silently removed before validation' % (side, describe(bs), describe(want)))
-    if len(loops) != 2:
-        ck.inconclusive(rule, f, 'trim-class', None, 'expected two trimming loops')
+    if set(sides) != {'left', 'right'}:
+        ck.inconclusive(rule, f, 'trim-class', None, 'expected a loop trimming each end')
+        return
+    # the right index (unsigned) cannot step below zero: every decrement is behind the exit of the left-trimming loop (then a
+    # whitespace at `right` implies right > left) or behind a guard that implies right > left / right >= 1
+    g = Graph(prog, f, inline=None, sync_lambdas=False)
+    rd = reaching_defs(g)
+    rid, lid = f.params[2]['id'], f.params[1]['id']
+    decs = [p for p in g.points if p.n is not None and ((p.n['k'] == 'unop' and p.n['op'] == '--' and strip_casts(f, p.n['e']).get('id') == rid) or
+                                                         (p.n['k'] == 'binop' and p.n['op'] == '-=' and strip_casts(f, p.n['lhs']).get('id') == rid))]
+    left_cond = set(f.subtree(sides['left']['cnd'])) | {sides['left']['cnd']}
+
+    def safe_edge(a, b, lab):
+        if not lab or not isinstance(lab[0], int) or lab[1] is not f:
+            return False
+        if lab[0] in left_cond and lab[2] is False:
+            return True
+        rel = relation(g, rd, f, lab[0], a.ctx, lab[2])
+        if rel and rel[0] == '>=0':
+            d = {k.split(':')[-1] if k != '1' else k: v for k, v in rel[1]}
+            rn, ln = f.params[2]['name'], f.params[1]['name']
+            if d in ({rn: 1, ln: -1, '1': -1}, {rn: 1, '1': -1}):
+                return True
+        return False
+    ok = bool(decs) and all(g.must_pass_edge(p, safe_edge) for p in decs)
+    ck.verdict(ok, rule, f, 'trim-right-cannot-underflow', decs[0].n if decs else None,
+               'the right index is only decremented after the left end has been trimmed (or behind right > left)' if ok else
+               'the right index can be decremented when it equals left (0 for a leading whitespace-only member): it wraps to SIZE_MAX and the view is read out of bounds')
 
 
 LC_DIGIT = frozenset(range(ord('a'), ord('z') + 1)) | frozenset(range(ord('0'), ord('9') + 1))
@@ -519,7 +552,7 @@ def run(ck, prog):
     ck.doc('C14.R3', 'copy excludes the updated/deleted key; an update of an existing key is never refused; Delete allocates enough', 4)
     ck.doc('C14.R4', 'AddEntry bounded by the allocation; new key only while size < 32', 2)
     ck.doc('C14.R5', 'key lookup compares whole keys; the tokenizer hands out the member parts untransformed', 2)
-    ck.doc('C14.R6', 'Trim removes exactly the whitespace class on both edges', 2)
+    ck.doc('C14.R6', 'Trim removes exactly the whitespace class on both edges; the right index cannot step below zero', 3)
     ck.doc('C14.R7', 'the validators\' regular expressions denote the W3C key/value grammar; true iff a whole-string match', 0)
     ck.doc('C09.R7', '(shared rule) no function-local static of the parse/validate functions is modified after initialisation', 1)
     with ck.canary('C14.R1'):
